@@ -489,6 +489,24 @@ class Ctx:
         (d / f"{self.prop_id}.json").write_text(json.dumps(ev, indent=1, default=str))
 
 
+def changed_anchor_files(prop_id: str) -> list[str]:
+    """anchor files of the property whose content differs from the recorded (validated) tree"""
+    rec = VERIF / "harness" / "anchors.json"
+    if not rec.exists():
+        return []
+    want = json.loads(rec.read_text()).get(prop_id, {})
+    root = os.path.dirname(os.path.realpath(REPO_SRC))
+    out = []
+    for f, h in want.items():
+        try:
+            cur = hashlib.sha256(open(os.path.join(root, f), "rb").read()).hexdigest()
+        except OSError:
+            cur = None
+        if cur != h:
+            out.append(f)
+    return out
+
+
 def import_ginjax():
     """import ginjax from the current working tree"""
     if REPO_SRC not in sys.path:
